@@ -57,6 +57,9 @@ CLAIMED = {
  "C16": ("lattice", "bounded-exhaustive enumeration of a structure-aware token-edit catalogue x clock positions x deployments through the real RequireAccount / RequireAttribute handlers, against a three-valued reference model",
          "Genuine session and tracking tokens are minted by the real codecs (RSA and ECDSA keys, default and custom lifetime / cookie name); every catalogued edit (algorithm substitution incl. none and HMAC keyed with the public key, re-signing by own / other / other-family keys, header extras, each claim removed / altered / mistyped, audience arrays, marker swap, other deployments, every signature byte flip and truncation, segment counts, encoding variants) is presented at 8 clock positions around issue and expiry: the wrapped handler must run iff the token is one the codec minted and nbf <= now < exp. Attribute exposure and RequireAttribute are checked relationally over 8 assertion shapes.",
          "DESIGN.md §3 C16", "golang-jwt is used harness-side to sign the forged tokens; both saml.TimeNow and jwt.TimeFunc are pinned"),
+ "C18": ("lattice", "bounded-exhaustive enumeration (full field product with a valid signature; signature treatments x single-field deviations; both encodings and the request dispatcher; tolerance and trust configurations) against a reference model of the statement's conjunction",
+         "Every combination of Destination (9) x Issuer (7) x Status (7) x IssueInstant position (8) with a valid harness signature, in POST and redirect encodings, under two tolerance settings and 2-3 trust configurations, and 15 signature treatments on otherwise valid and single-deviation responses through all four entry points, is built immediately before the call (the path uses the process clock) and must be reported valid exactly when the statement's five conditions hold.",
+         "DESIGN.md §3 C18", TRUST + "; exact freshness boundary not decided (5 s margin, process clock)"),
  "C15": ("lattice", "exhaustive sub-range sweeps (dense nanosecond ranges, digit-sparse values, carries), bounded grammar enumeration of duration strings vs a reference recogniser, instant lattice, 2^14 metadata shapes with a fixed-point oracle",
          "Durations: every value of dense and digit-sparse sub-ranges (thorough: all 1e9 sub-second values) x carries x sign round-trips exactly; every duration string of <=5 tokens agrees with a hand-written xsd:duration recogniser; instants on the year/date/time/rounding-edge/zone lattice round-trip to the ms-rounded UTC instant and documented lexical forms are accepted, others rejected; every library-generated SP/IdP metadata document and 2^14 generated EntityDescriptor shapes (plus EntitiesDescriptor by value/pointer) re-parse to an equal value and reach a fixed point after one generation.",
          "DESIGN.md §3 C15", "encoding/xml; the reference xsd:duration recogniser in checks/c15.go; values outside the enumerated sub-ranges are not covered"),
